@@ -39,11 +39,17 @@ theorem c11_facts_wf : ∀ uc fl, WF (genEnv uc fl) = true := by
 
 /-- **Facts obligation, shape part**: `Assign.glomit` wraps exactly the parent fetch in
     `try … except PathAccessError` and re-raises unless `missing`; `Assign.__init__` accepts
-    exactly the final ops `[ . P`; `_apply_for_each` flattens `layers - 1` times, then iterates. -/
+    exactly the final ops `[ . P`; `_apply_for_each` flattens `layers - 1` times, then iterates;
+    `TType.__stars__` counts `x` / `X` over the *operator* slots `__ops__[1::2]` only (a segment
+    that is merely *named* 'x' is not a wildcard — the model's `stars`); no method of `Assign` /
+    `Delete` other than `__init__` stores into `self` (a spec object is an immutable term in the
+    model: re-using it cannot change its meaning). -/
 theorem c11_facts_shape :
     Generated.assignGlomitCatch = (["PathAccessError"], "reraise-unless-missing") ∧
     Generated.finalOpsAllowed.lookup "Assign" = some "[.P" ∧
-    Generated.applyForEachShape = "flatten layers-1 then iterate" := by decide
+    Generated.applyForEachShape = "flatten layers-1 then iterate" ∧
+    Generated.starsShape = "count x/X over the operator slots __ops__[1::2]" ∧
+    Generated.specSelfWrites.filter (·.1 == "Assign") = [] := by decide
 
 /-- **Same object**: whatever `assign` returns is the target it was given (identity — the same
     `Val`, i.e. the same address).  For *every* input: wildcards, S-rooted, any `missing`. -/
